@@ -183,6 +183,10 @@ func (g *G) Matrix() *pipeline.Matrix {
 	for i := 0; i < nd; i++ {
 		m.Setup[DimNames[i]] = g.strList("mv", 0, 3)
 	}
+	if g.intn("mixedanon", 0, 2) == 0 {
+		// the anonymous dimension written explicitly next to named ones
+		m.Setup[""] = g.strList("mv", 1, 2)
+	}
 	for i, n := 0, g.intn("nadj", 0, 2); i < n; i++ {
 		a := &pipeline.MatrixAdjustment{With: pipeline.MatrixAdjustmentWith{}}
 		for d := range m.Setup {
